@@ -2,8 +2,14 @@ import MlsVerif.Model.Codec
 import MlsVerif.Model.CodecCustom
 import MlsVerif.Model.Hex
 import MlsVerif.Gen.Schemas
+import MlsVerif.Gen.Codecs
 /-! Line protocol for C12: `dec <Type> <hex>` — decode with the schema GENERATED from the Rust item of that name, then
-re-encode and measure: `ok <consumed> <size> same|diff [<value text>]` or `err`.  `decx` rows are inputs the implementation
+re-encode and measure: `ok <consumed> <size> same|diff [<value text>]` or `err`.  A name that is not a plain schema is
+looked up in the table of GENERATED codecs (`Gen.Codecs.codecTable`: derive layouts over the hand models of the
+hand-written impls; `MlsMessage`, `KeyPackage`, `Commit`, `Snapshot`, …), same answer format.  Lookup order: the two
+refined decoders themselves, `Gen.Schemas.table`, `Gen.Codecs.codecTable`.  `decc` is `dec` with the codec table asked
+before the schema table: for the names that are in both (schemas with a refined decoder inside: `GroupInfo`,
+`GroupContext`, `RemoveProposal`, …) it answers with the exact model (leaf-index bound, duplicate extension types).  `decx` rows are inputs the implementation
 rejected for a type containing a node whose Rust decoder is stricter than the derive layout (`Gen.Schemas.refinedIdx`):
 the model's own verdict is not compared, the answer is `err`.  The value text is printed for the harness test types
 (`V*`), whose Rust values are printed in the same format. -/
@@ -36,6 +42,9 @@ def custom? (name : String) : Option Codec.Codec :=
   else if name == "ExtensionList" then some Codec.extensionList
   else none
 
+def lookupCodec (name : String) : Option Codec.Codec :=
+  (Gen.Codecs.codecTable.find? (·.1 == name)).map (·.2)
+
 def decWith (c : Codec.Codec) (b : Bytes) : String :=
   match c.dec b with
   | .error _ => "err"
@@ -63,12 +72,25 @@ def dec (name hex : String) : String :=
         | .error _ => "encerr"
       let base := s!"ok {consumed} {sz} {tag}"
       if name.startsWith "V" && tag != "encerr" then base ++ " " ++ valS v else base
-  | none, _ => "unknown-type"
+  | none, some ba =>
+    match lookupCodec name with
+    | some c => decWith c ba.toList
+    | none => "unknown-type"
+  | none, none => if (lookupCodec name).isSome then "bad-op" else "unknown-type"
   | _, none => "bad-op"
+
+/-- `dec` preferring the generated codec (exact refined decoders inside) over the plain schema of the same name -/
+def decc (name hex : String) : String :=
+  match custom? name, lookupCodec name, (if hex == "-" then some ByteArray.empty else Hex.ofHex? hex) with
+  | none, some c, some ba => decWith c ba.toList
+  | _, _, _ => dec name hex
 
 def handle (ws : List String) : String :=
   match ws with
   | ["dec", name, hex] => dec name hex
+  | ["decc", name, hex] => decc name hex
+  -- state types holding unordered maps: whether the re-encoding has the same byte ORDER is not a property of the value
+  | ["deccu", name, hex] => ((decc name hex).replace " same" " any").replace " diff" " any"
   | ["decx", name, _] => if (lookup name).isSome then "err" else "unknown-type"
   | _ => "bad-op"
 end Driver.C12
